@@ -1,4 +1,5 @@
 import SqlgrepModel.Drivers.C16
+import SqlgrepModel.Drivers.Extract
 /- Line protocol driver: `<kind> <payload…>` per line in, one answer line out. -/
 open Sqlgrep
 
@@ -7,6 +8,7 @@ def dispatch (line : String) : String :=
   | some (.atom kind :: args) =>
     match kind with
     | "cmp3" => Drivers.C16.handle args
+    | "extract" => Drivers.Extract.handle args
     | _ => "unknown-kind"
   | _ => "bad-line"
 
